@@ -282,11 +282,25 @@ func (g *gen) block() *types.Block {
 
 // ---------------------------------------------------------------- Coq literals / canonical dump
 
+// a byte string as (W len [words]): seven bytes to a primitive 63-bit integer literal
 func cB(b []byte) string {
 	if len(b) == 0 {
 		return "[]"
 	}
-	return fmt.Sprintf("(B %d 0x%s)", len(b), hex.EncodeToString(b))
+	var sb strings.Builder
+	fmt.Fprintf(&sb, "(W %d [", len(b))
+	for i := 0; i < len(b); i += 7 {
+		j := i + 7
+		if j > len(b) {
+			j = len(b)
+		}
+		if i > 0 {
+			sb.WriteString(";")
+		}
+		sb.WriteString("0x" + hex.EncodeToString(b[i:j]))
+	}
+	sb.WriteString("]%uint63)")
+	return sb.String()
 }
 func cBL(l [][]byte) string {
 	s := make([]string, len(l))
@@ -589,13 +603,20 @@ func oracleBlock(x *types.Block) (res blkResult, fail string) {
 
 // ---------------------------------------------------------------- observations for the model
 
-func obsCoq(tag int, raw []byte, val string) string {
+// sizes == nil: the decoded value is absent or differs from the expected one
+func obsCoq(tag int, raw []byte, sizes []uint64) string {
 	v := "None"
-	if val != "" {
-		v = "(Some " + val + ")"
+	if sizes != nil {
+		ss := make([]string, len(sizes))
+		for i, x := range sizes {
+			ss[i] = fmt.Sprint(x)
+		}
+		v = "(Some [" + strings.Join(ss, "; ") + "])"
 	}
 	return fmt.Sprintf("(%d%%nat, %s, %s)", tag, cB(raw), v)
 }
+
+const maxLiteral = 14000 // larger cases go through the oracle only
 
 func sizeBucket(n int) string {
 	switch {
@@ -723,10 +744,10 @@ func runC04(c *Ctx) error {
 	c.Stats.Extra["MaxNumOfValidators"] = nv
 	g := &gen{c: c, rng: c.Rng}
 	st := c.Stats
-	header := "From Coq Require Import List NArith Bool.\nFrom Verif Require Import Outcome Cmp.\nFrom C04 Require Import Model Run.\nImport ListNotations.\nOpen Scope N_scope.\n"
-	c.Cases.Shard = 120
+	header := "From Coq Require Import List NArith Bool Uint63.\nFrom Verif Require Import Outcome Cmp.\nFrom C04 Require Import Model Run.\nImport ListNotations.\nOpen Scope N_scope.\n"
+	c.Cases.Shard = 100
 
-	nCoqTx, nCoqHdr, nCoqBlk, nCoqMut, nCoqBad := c.N(700, 3000), c.N(160, 700), c.N(110, 500), c.N(260, 1200), c.N(40, 150)
+	nCoqTx, nCoqHdr, nCoqBlk, nCoqMut, nCoqBad := c.N(420, 1500), c.N(110, 400), c.N(80, 300), c.N(220, 800), c.N(30, 100)
 
 	addCase := func(model, observed string, desc map[string]interface{}) {
 		id := c.Cases.Add(model, observed)
@@ -741,7 +762,9 @@ func runC04(c *Ctx) error {
 		desc := map[string]interface{}{"kind": kind, "value": key, "encoding": hex.EncodeToString(res.raw)}
 		if len(key) > 6000 {
 			desc["value"] = key[:6000] + "..."
-			desc["encoding"] = hex.EncodeToString(res.raw[:200]) + "..."
+			if len(res.raw) > 200 {
+				desc["encoding"] = hex.EncodeToString(res.raw[:200]) + "..."
+			}
 		}
 		if fail != "" {
 			st.Fail(fail, desc)
@@ -752,16 +775,16 @@ func runC04(c *Ctx) error {
 		if len(st.Samples) < 2 && len(tx.Inputs) >= 2 && len(tx.Outputs) >= 1 && len(key) < 3000 {
 			st.Sample(desc)
 		}
-		if toCoq {
-			val := ""
-			if res.decoded != nil {
-				val = "(VTx " + cTx(res.decoded, true) + ")"
+		if lit := cTx(tx, true); toCoq && len(lit) < maxLiteral {
+			var sizes []uint64
+			if res.decoded != nil && cTx(res.decoded, false) == key {
+				sizes = []uint64{res.decoded.SerializedSize}
 			}
-			addCase("run_tx "+cTx(tx, true), obsCoq(res.tag, res.raw, val), desc)
+			addCase("run_tx "+lit, obsCoq(res.tag, res.raw, sizes), desc)
 		}
 	}
 	doTx(witnessTx(), "regression-witness-spend-suffix", true)
-	nTx := c.N(12000, 80000)
+	nTx := c.N(8000, 40000)
 	for i := 0; i < nTx; i++ {
 		g.big = i%97 == 5
 		toCoq := i < nCoqTx && !g.big
@@ -784,21 +807,21 @@ func runC04(c *Ctx) error {
 		st.Count("header.suplinks." + sizeBucket(len(bh.SupLinks)))
 		st.Count("header.witness-bytes." + sizeBucket(len(bh.BlockWitness)))
 		st.Case("header|"+hk(key), len(bh.SupLinks) >= 1)
-		if toCoq {
-			val := ""
-			if res.decoded != nil {
-				val = "(VHeader " + cHeader(res.decoded) + ")"
+		if toCoq && len(key) < maxLiteral {
+			var sizes []uint64
+			if res.decoded != nil && cHeader(res.decoded) == key {
+				sizes = []uint64{}
 			}
-			addCase(fmt.Sprintf("run_header %d%%nat %s", nv, key), obsCoq(res.tag, res.raw, val), desc)
+			addCase(fmt.Sprintf("run_header %d%%nat %s", nv, key), obsCoq(res.tag, res.raw, sizes), desc)
 		}
 	}
-	nHdr := c.N(4000, 25000)
+	nHdr := c.N(2500, 12000)
 	for i := 0; i < nHdr; i++ {
 		doHeader(g.header(), i < nCoqHdr)
 	}
 
 	// ---- blocks (three serialization flags each)
-	nBlk := c.N(1500, 10000)
+	nBlk := c.N(1000, 5000)
 	for i := 0; i < nBlk; i++ {
 		b := g.block()
 		res, fail := oracleBlock(b)
@@ -816,17 +839,29 @@ func runC04(c *Ctx) error {
 		if len(st.Samples) < 4 && len(b.Transactions) >= 1 && len(key) < 4000 {
 			st.Sample(desc)
 		}
-		if i < nCoqBlk {
+		if lit := cBlock(b, true); i < nCoqBlk && len(lit) < maxLiteral {
 			flag := 1 + i%3
 			if i%5 == 0 {
 				flag = 3
 			}
-			val := ""
-			if res.decoded[flag] != nil {
-				val = "(VBlock " + cBlock(res.decoded[flag], true) + ")"
+			var sizes []uint64
+			if y := res.decoded[flag]; y != nil {
+				want := &types.Block{BlockHeader: b.BlockHeader, Transactions: b.Transactions}
+				if flag == types.SerBlockHeader {
+					want.Transactions = nil
+				}
+				if flag == types.SerBlockTransactions {
+					want.BlockHeader = types.BlockHeader{}
+				}
+				if cBlock(want, false) == cBlock(y, false) {
+					sizes = []uint64{}
+					for _, tx := range y.Transactions {
+						sizes = append(sizes, tx.SerializedSize)
+					}
+				}
 			}
 			st.Count(fmt.Sprintf("block.model-flag.%d", flag))
-			addCase(fmt.Sprintf("run_block %d%%nat %d %s", nv, flag, cBlock(b, true)), obsCoq(res.tag[flag], res.raw[flag], val), desc)
+			addCase(fmt.Sprintf("run_block %d%%nat %d %s", nv, flag, lit), obsCoq(res.tag[flag], res.raw[flag], sizes), desc)
 		}
 	}
 
@@ -874,11 +909,11 @@ func runC04(c *Ctx) error {
 		st.Count(fmt.Sprintf("unencodable.result.%d", tag))
 		desc := map[string]interface{}{"kind": "unencodable-" + where, "value": cTx(tx, false)}
 		st.Case("bad|"+hk(cTx(tx, false)), false)
-		addCase("run_tx "+cTx(tx, true), obsCoq(tag, nil, ""), desc)
+		addCase("run_tx "+cTx(tx, true), obsCoq(tag, nil, nil), desc)
 	}
 
 	// ---- mutated encodings: whatever still decodes is a value the node holds; it must round-trip
-	nMut := c.N(20000, 150000)
+	nMut := c.N(12000, 70000)
 	for i := 0; i < nMut; i++ {
 		kind := g.rng.Intn(10)
 		switch {
@@ -886,7 +921,8 @@ func runC04(c *Ctx) error {
 			src := g.tx(false)
 			text, err := src.MarshalText()
 			if err != nil {
-				return fmt.Errorf("generator produced an unencodable transaction: %v", err)
+				st.Fail("class=marshal-error: TxData.MarshalText failed on a well-formed value: "+err.Error(), map[string]interface{}{"kind": "generated", "value": cTx(src, false)})
+				continue
 			}
 			raw, _ := hex.DecodeString(string(text))
 			mut, how := g.mutate(raw)
@@ -906,7 +942,7 @@ func runC04(c *Ctx) error {
 				st.Count("mutation.tx.rejected")
 				st.Case("mut|"+hk(string(mut)), false)
 				if i < nCoqMut {
-					addCase("run_dec_tx "+cB(mut), obsCoq(2, nil, ""), desc)
+					addCase("run_dec_tx "+cB(mut)+" None", obsCoq(2, nil, nil), desc)
 				}
 				continue
 			}
@@ -918,16 +954,20 @@ func runC04(c *Ctx) error {
 			}
 			st.Case("mut|"+hk(string(mut)), true)
 			if i < nCoqMut {
-				addCase("run_dec_tx "+cB(mut), obsCoq(0, res.raw, "(VTx "+cTx(y, true)+")"), desc)
+				addCase("run_dec_tx "+cB(mut)+" (Some "+cTx(y, true)+")", obsCoq(0, res.raw, []uint64{y.SerializedSize}), desc)
 			}
 		case kind < 8: // header
 			src := g.header()
-			text, _ := src.MarshalText()
+			text, err := src.MarshalText()
+			if err != nil {
+				st.Fail("class=marshal-error: BlockHeader.MarshalText failed on a well-formed value: "+err.Error(), map[string]interface{}{"kind": "header", "value": cHeader(src)})
+				continue
+			}
 			raw, _ := hex.DecodeString(string(text))
 			mut, how := g.mutate(raw)
 			st.Count("mutation." + how)
 			y := new(types.BlockHeader)
-			err := func() (err error) {
+			err = func() (err error) {
 				defer func() {
 					if r := recover(); r != nil {
 						err = fmt.Errorf("panic: %v", r)
@@ -941,7 +981,7 @@ func runC04(c *Ctx) error {
 				st.Count("mutation.header.rejected")
 				st.Case("mut|"+hk(string(mut)), false)
 				if i < nCoqMut {
-					addCase(fmt.Sprintf("run_dec_header %d%%nat %s", nv, cB(mut)), obsCoq(2, nil, ""), desc)
+					addCase(fmt.Sprintf("run_dec_header %d%%nat %s None", nv, cB(mut)), obsCoq(2, nil, nil), desc)
 				}
 				continue
 			}
@@ -953,16 +993,20 @@ func runC04(c *Ctx) error {
 			}
 			st.Case("mut|"+hk(string(mut)), true)
 			if i < nCoqMut {
-				addCase(fmt.Sprintf("run_dec_header %d%%nat %s", nv, cB(mut)), obsCoq(0, res.raw, "(VHeader "+cHeader(y)+")"), desc)
+				addCase(fmt.Sprintf("run_dec_header %d%%nat %s (Some %s)", nv, cB(mut), cHeader(y)), obsCoq(0, res.raw, []uint64{}), desc)
 			}
 		default: // block: oracle only (Block.UnmarshalText goes on to MapTx, which is C05's subject)
 			src := g.block()
-			text, _ := src.MarshalText()
+			text, err := src.MarshalText()
+			if err != nil {
+				st.Fail("class=marshal-error: Block.MarshalText failed on a well-formed value: "+err.Error(), map[string]interface{}{"kind": "block"})
+				continue
+			}
 			raw, _ := hex.DecodeString(string(text))
 			mut, how := g.mutate(raw)
 			st.Count("mutation." + how)
 			y := new(types.Block)
-			err := func() (err error) {
+			err = func() (err error) {
 				defer func() {
 					if r := recover(); r != nil {
 						err = fmt.Errorf("panic: %v", r)
